@@ -131,7 +131,9 @@ def worker():
     ldesc = RecordDescriptor("c13/tsl", [("datetime[]", "tsl")])
     odesc = RecordDescriptor("c13/o", [("string", "o")])
     wdesc = RecordDescriptor("c13/w", [("string", "note"), ("datetime", "when")])
-    tsof = lambda r: r.ts if hasattr(r, "ts") else r.when  # noqa: E731
+    # a later version of c13/ts: the same type name, one more timestamp field
+    desc2 = RecordDescriptor("c13/ts", [("datetime", "ts"), ("datetime", "ts_end")])
+    tsof = lambda r: (r.ts_end if hasattr(r, "ts_end") else r.ts) if hasattr(r, "ts") else r.when  # noqa: E731
     gen = _d.datetime(2023, 4, 5, 6, 7, 8, 9, tzinfo=_d.timezone.utc)
     n = 0
     for spec in value_specs(seed):
@@ -311,10 +313,14 @@ def worker():
             vals.append((spec, ft.datetime(lit.ev(spec))))
         except Exception:  # noqa: BLE001
             pass
-    for order in ("fwd", "rev", "unset-first"):
+    for order in ("fwd", "rev", "unset-first", "two-versions"):
         seq = vals if order != "rev" else vals[::-1]
         # two record types alternate; their timestamp fields have different names
         recs_ = [(desc(ts=x, _generated=gen) if i % 2 == 0 else wdesc(when=x, note="n", _generated=gen)) for i, (_, x) in enumerate(seq)]
+        if order == "two-versions":
+            # two versions of ONE type name alternate (new, old, new, ...): the newer one has a second timestamp field, which is the
+            # one judged for its records
+            recs_ = [(desc2(ts=x, ts_end=x, _generated=gen) if i % 2 == 0 else desc(ts=x, _generated=gen)) for i, (_, x) in enumerate(seq)]
         lead = []
         if order == "unset-first":
             # the first record of each type has NO timestamp: whatever a writer derives from the first record of a type (column
@@ -372,8 +378,12 @@ def worker():
             w.flush()
             w.close()
             rd = RecordReader("sqlite://" + path)
-            # (the reader goes table by table: the first type's rows, then the second's)
-            judge_seq("sqlite", [tsof(r) for r in rd], list(range(0, len(seq), 2)) + list(range(1, len(seq), 2)))
+            # (the reader goes table by table: the first type's rows, then the second's; two versions of one name share a table, whose
+            #  rows all come back with the widest column set: the second timestamp column where it was given, else the first)
+            if order == "two-versions":
+                judge_seq("sqlite", [(r.ts_end if getattr(r, "ts_end", None) is not None else r.ts) for r in rd], range(len(seq)))
+            else:
+                judge_seq("sqlite", [tsof(r) for r in rd], list(range(0, len(seq), 2)) + list(range(1, len(seq), 2)))
         except Exception as e:  # noqa: BLE001
             print(json.dumps({"spec": "seq:" + order, "form": "sqlite", "viol": [["sqlite:sequence:raises-%s" % type(e).__name__, {"error": repr(e)[:120]}]], "h": {}}))
         finally:
